@@ -307,7 +307,7 @@ class Hist(object):
         k = op["op"]
         if k == "update":
             kw = op["kw"]
-            m.import_gff3(op["feats"], strategy=kw.get("merge_strategy", "error"), id_spec="ID",
+            m.import_gff3(op["feats"], strategy=kw.get("merge_strategy", "error"), id_spec=self.cfg.get("id_spec") or "ID",
                           fmf=tuple(kw.get("force_merge_fields") or ()), upto=upto)
         elif k == "delete":
             m.delete(op["ids"])
@@ -323,7 +323,7 @@ class Hist(object):
                 m = pre.clone()
                 try:
                     kw = op["kw"]
-                    m.import_gff3(op["feats"], strategy=kw.get("merge_strategy", "error"), id_spec="ID",
+                    m.import_gff3(op["feats"], strategy=kw.get("merge_strategy", "error"), id_spec=self.cfg.get("id_spec") or "ID",
                                   fmf=tuple(kw.get("force_merge_fields") or ()), upto=k)
                 except (ModelError, Undefined):
                     break
@@ -331,7 +331,7 @@ class Hist(object):
             try:
                 m = pre.clone()
                 kw = op["kw"]
-                m.import_gff3(op["feats"], strategy=kw.get("merge_strategy", "error"), id_spec="ID",
+                m.import_gff3(op["feats"], strategy=kw.get("merge_strategy", "error"), id_spec=self.cfg.get("id_spec") or "ID",
                               fmf=tuple(kw.get("force_merge_fields") or ()))
                 out.append(("post", m))
             except (ModelError, Undefined):
@@ -424,11 +424,15 @@ class Hist(object):
         fault = op.get("fault")
         if k == "create":
             spec = G.source_spec(None, op["feats"], form=op["form"])
-            r = self.call({"op": "create", "h": "h", "db": DB, "data": spec, "src": "op%d" % j,
-                           "kw": dict(op["kw"], keep_order=self.cfg.get("keep_order", False))})
+            req = {"op": "create", "h": "h", "db": DB, "data": spec, "src": "op%d" % j,
+                   "kw": dict(op["kw"], keep_order=self.cfg.get("keep_order", False))}
+            if self.cfg.get("id_spec") is not None:
+                req["id_spec"] = self.cfg["id_spec"]
+            r = self.call(req)
             self.points[j] = r["points"]
             try:
-                self.model.import_gff3(op["feats"], strategy=op["kw"].get("merge_strategy", "error"))
+                self.model.import_gff3(op["feats"], strategy=op["kw"].get("merge_strategy", "error"),
+                                       id_spec=self.cfg.get("id_spec") or "ID", fmf=tuple(op["kw"].get("force_merge_fields") or ()))
             except ModelError:
                 raise Undefined("base import rejected by the model")
             if not r["ok"]:
@@ -541,7 +545,10 @@ class Hist(object):
         k = op["op"]
         if k == "update":
             kw = dict(op["kw"])
-            return {"op": "update", "h": "h", "data": self.data_spec(op), "src": "op%d" % j, "kw": kw}
+            req = {"op": "update", "h": "h", "data": self.data_spec(op), "src": "op%d" % j, "kw": kw}
+            if self.cfg.get("id_spec") is not None:
+                req["id_spec"] = self.cfg["id_spec"]
+            return req
         if k == "delete":
             return {"op": "delete", "h": "h", "ids": op["ids"], "form": op["form"], "kw": dict(op.get("kw") or {})}
         if k == "add_relation":
@@ -551,9 +558,14 @@ class Hist(object):
 
     def liveness(self, j):
         """Bounded liveness: after the last fault and one gc, a fault-free update succeeds and is visible."""
+        if self.cfg.get("id_spec") is not None:
+            # under a custom id_spec the key of a further feature is itself auto-generated; after a crash between
+            # the commits of one update that is outside what is judged here (see ASSUMPTIONS): only readability
+            self.compare("after fault (custom id_spec: no liveness update)", observer=True)
+            return
         f = G.mf(["chr1", "src", "gene", 3, 9, ".", "+", "."], [["ID", ["live1"]]])
-        op = {"op": "update", "feats": [f], "form": "list", "kw": {"merge_strategy": "error", "make_backup": False}}
-        self.model.import_gff3([f])
+        op = {"op": "update", "feats": [f], "form": "list", "kw": {"merge_strategy": "create_unique", "make_backup": False}}
+        self.model.import_gff3([f], strategy="create_unique", id_spec=self.cfg.get("id_spec") or "ID")
         r = self.call(self.request(j, op))
         if not r["ok"] and "locked" in r["msg"]:
             # recovery step allowed by the statement's alphabet: close/reopen the handle
@@ -693,6 +705,54 @@ def run(case):
     out["sample"] = {"ops": [_op_summary(o) for o in case["ops"]],
                      "variants": [dict(v["fault"], at_op=v["at_op"]) for v in (case.get("variants") or [])][:6]}
     return out
+
+
+def fault_profile(steps, cfg, seed, clause_prefix, n_point_faults=2):
+    """C10-style fault variants for another check's history (DESIGN §5: 'a separate profile adds source
+    failures / sql errors / crashes with the relaxed oracle').  steps: that check's create/update/reopen/
+    restart/gc steps (GFF3).  Returns (violations, stats, probes)."""
+    import random
+
+    rng = random.Random(seed)
+    ops = []
+    for st in steps:
+        k = st["op"]
+        if k in ("create", "update"):
+            kw = {"merge_strategy": st.get("strategy", "create_unique")}
+            if kw["merge_strategy"] == "merge" and cfg.get("fmf"):
+                kw["force_merge_fields"] = list(cfg["fmf"])
+            if k == "update":
+                kw["make_backup"] = rng.random() < 0.5
+                kw["checklines"] = rng.choice([0, 0, 1, 2, 10])
+            ops.append({"op": k, "feats": st["feats"], "form": st.get("form", "list"), "kw": kw})
+        elif k in ("reopen", "restart", "gc"):
+            ops.append({"op": k})
+    if not ops or ops[0]["op"] != "create":
+        return [], {}, {}
+    ops.append({"op": rng.choice(["reopen", "restart"])})
+    ops.append({"op": "update", "feats": [G.mf(["chr1", "src", "exon", 3, 9, ".", "+", "."], [["note", ["tail"]]]),
+                                         G.mf(["chr1", "src", "exon", 3, 9, ".", "+", "."], [["ID", [rng.choice(["a", "b", "tailid"])]]])],
+                "form": "list", "kw": {"merge_strategy": "create_unique", "make_backup": False}})
+    upd = [j for j, o in enumerate(ops[:-2]) if o["op"] == "update" and o["feats"]]
+    variants = []
+    if upd:
+        j = rng.choice(upd)
+        f = rng.choice(["gen", "iter1", "path"])
+        ks = list(range(len(ops[j]["feats"]) + 1))
+        for k in rng.sample(ks, min(len(ks), 3)):
+            variants.append({"at_op": j, "fault": {"src": k, "form": f}})
+        for _ in range(n_point_faults):
+            variants.append({"at_op": rng.choice(upd), "fault": {"frac": rng.random(), "mode": rng.choice(["error", "crash", "cancel", "crash"])}})
+    case = {"cfg": {"fmf": list(cfg.get("fmf") or []), "keep_order": False, "id_spec": cfg.get("id_spec")}, "ops": ops, "variants": variants}
+    out = run(case)
+    vs = []
+    for v in out["violations"]:
+        v = dict(v)
+        v["sig"] = dict(v["sig"], clause=clause_prefix + "/" + v["sig"]["clause"])
+        v["clause"] = v["sig"]["clause"]
+        v.pop("case", None)
+        vs.append(v)
+    return vs, out["stats"], out.get("probes") or {}
 
 
 def _merge_stats(a, b):
